@@ -71,6 +71,10 @@ pub struct Scenario {
     /// corrupting reads (instead of by the test before the first step)
     #[serde(default)]
     pub fs_inside: bool,
+    /// fs mode: every second read is made while an `FsHandle::enter()` guard of the own host is alive on
+    /// the simulation thread (helper code shared with worker threads does that)
+    #[serde(default)]
+    pub fs_via_handle: bool,
     pub seed: u64,
 }
 
@@ -142,12 +146,12 @@ impl Property for C20 {
     fn generate(rng: &mut Rng, _idx: u64, _tier: Tier) -> Scenario {
         if rng.chance(1, 200) {
             // mode 2: a long run of triggers that match nothing, inside one poll of a runtime-driven task
-            return Scenario { mode: 2, sources: vec![], schedule: vec![], fs_reads: rng.range(1, 600) as u32, fs_match: rng.bool(), fs_drop_after: None, fs_burst: 0, fs_inside: false, seed: rng.next_u64() };
+            return Scenario { mode: 2, sources: vec![], schedule: vec![], fs_reads: rng.range(1, 600) as u32, fs_match: rng.bool(), fs_drop_after: None, fs_burst: 0, fs_inside: false, fs_via_handle: false, seed: rng.next_u64() };
         }
         if rng.chance(1, 4000) {
             // mode 3: a Panic (or, for the synchronous hook equally fatal, Suspend) barrier on the corruption event of a
             // read; executed in a child process (fs_burst: how the file is read, fs_reads: reaction)
-            return Scenario { mode: 3, sources: vec![], schedule: vec![], fs_reads: rng.below(3) as u32, fs_match: rng.chance(4, 5), fs_drop_after: None, fs_burst: rng.below(3) as u32, fs_inside: rng.chance(1, 3), seed: rng.next_u64() };
+            return Scenario { mode: 3, sources: vec![], schedule: vec![], fs_reads: rng.below(3) as u32, fs_match: rng.chance(4, 5), fs_drop_after: None, fs_burst: rng.below(3) as u32, fs_inside: rng.chance(1, 3), fs_via_handle: false, seed: rng.next_u64() };
         }
         if rng.chance(1, 40) {
             return Scenario {
@@ -159,6 +163,7 @@ impl Property for C20 {
                 fs_drop_after: if rng.chance(1, 3) { Some(rng.range(0, 3) as u32) } else { None },
                 fs_burst: rng.range(1, 3) as u32,
                 fs_inside: rng.chance(1, 3),
+                fs_via_handle: rng.chance(1, 4),
                 seed: rng.next_u64(),
             };
         }
@@ -244,7 +249,7 @@ impl Property for C20 {
             schedule.push(st);
         }
         let _ = first_match;
-        Scenario { mode: 0, sources, schedule, fs_reads: 0, fs_match: false, fs_drop_after: None, fs_burst: 0, fs_inside: false, seed: rng.next_u64() }
+        Scenario { mode: 0, sources, schedule, fs_reads: 0, fs_match: false, fs_drop_after: None, fs_burst: 0, fs_inside: false, fs_via_handle: false, seed: rng.next_u64() }
     }
 
     /// Every scenario runs on a thread of its own: the barrier registry of the subject is thread-local, and
@@ -649,6 +654,10 @@ fn run_fs(sc: &Scenario, log: &mut Log, rep: &mut Report) -> Option<Violation> {
     let matches = sc.fs_match;
     let bcell: Rc<RefCell<Option<Barrier<FsCorruption>>>> = Rc::new(RefCell::new(None));
     let inside = sc.fs_inside;
+    let via_handle = sc.fs_via_handle;
+    if via_handle {
+        rep.probes.inc("fs_reads_under_an_entered_fs_handle_on_the_simulation_thread");
+    }
     if !inside {
         *bcell.borrow_mut() = Some(Barrier::new(move |c: &FsCorruption| matches && c.path.ends_with("data")));
     }
@@ -663,6 +672,7 @@ fn run_fs(sc: &Scenario, log: &mut Log, rep: &mut Report) -> Option<Violation> {
                 break;
             }
             if reads_done.get() < *gate2.borrow() {
+                let _guard = if via_handle && reads_done.get() % 2 == 1 { Some(turmoil::fs::FsHandle::current().enter()) } else { None };
                 let _ = sfs::read("/data")?;
                 reads_done.set(reads_done.get() + 1);
             } else {
